@@ -8,7 +8,7 @@ from framework import REPO, ROOT
 
 TIE = ["Nsq.Tie.Life"]
 PROPS = ["Nsq.Props.C08"]
-HARNESS = ["e5/replay_test.go", "e5/life_test.go", "e5/inflight_test.go"]
+HARNESS = ["e5/replay_test.go", "e5/life_test.go", "e5/inflight_test.go", "e5/conc_test.go"]
 
 # hook schedules exhibited in Lean (Props/C08.lean) and replayed on the real code
 F7_PANIC = ["f7_empty_stale_index", "f7_req_empty", "f7_touch_empty"]
@@ -17,6 +17,7 @@ KEY_PANIC = "removeFromInFlightPQ-stale-index"
 KEY_VARIANT = "removeFromInFlightPQ-unrelated-removed"
 KEY_BADFILE = "diskqueue-bad-file-left-behind"
 KEY_ORPHAN = "orphan-durable-channel-under-ephemeral-topic"
+KEY_LEAK = "empty-races-delivery-leaks-inflight-count"
 
 
 def tree_fixed():
@@ -90,6 +91,15 @@ def replay_known(ctx, binp):
         elif left:
             ctx.violation("files-left-behind:replay", "deleted channel dq:c leaves %s" % left,
                           open(os.path.join(ROOT, "corpus", "C08", "known", "dq_bad_file_after_delete.sched")).read())
+    rc, kv, out = run_sched(ctx, binp, "empty_races_delivery")
+    res["empty_races_delivery"] = kv or {"error": out[-300:]}
+    if not kv:
+        ctx.broken_ties.append("replay empty_races_delivery did not run (rc=%s)" % rc)
+    else:
+        ctx.evaluations += 1
+        if kv.get("starved") == "true" or (kv.get("client_in_flight_count", "0") != "0" and kv.get("in_flight_map") == "0"):
+            ctx.violation(KEY_LEAK, "empty_races_delivery: " + " ".join("%s=%s" % x for x in sorted(kv.items())),
+                          open(os.path.join(ROOT, "corpus", "C08", "known", "empty_races_delivery.sched")).read())
     rc, kv, out = run_sched(ctx, binp, "orphan_resurrect")
     res["orphan_resurrect"] = kv or {"error": out[-300:]}
     if not kv:
@@ -120,10 +130,29 @@ def hist_from(out, ctx, label):
     return h
 
 
+def deadline(ctx):
+    """harness deadline: generous (quick ≈ 10 s of work) but short enough that a deadlocked daemon is reported quickly"""
+    return ctx.budget(150, 900)
+
+
+def hung(ctx, rc, out, test, seed, n, steps):
+    """A harness run that hit its deadline: some operation on the real daemon never returned."""
+    if rc == -9 or "test timed out" in out or "did not drain within" in out or "blocked" in out:
+        stuck = [l.strip() for l in out.splitlines() if "nsqd.(*" in l and "zz_verif" not in l][:6]
+        ctx.violation("daemon-hangs:" + test, "%s did not finish within its deadline — an operation on the daemon never "
+                      "returned (goroutines in: %s)" % (test, "; ".join(stuck) or "?"),
+                      json.dumps({"kind": "seed", "test": test, "seed": seed, "n": n, "steps": steps}))
+        return True
+    return False
+
+
 def life_corr(ctx, binp, corr_broken, seed, n, steps):
-    rc, out = ctx.run_cmd([binp, "-test.run", "^TestVerifE5LifeCorr$", "-test.count=1", "-test.timeout", "500s"],
-                          timeout=560, env={"VERIF_SEED": seed, "VERIF_N": n, "VERIF_STEPS": steps,
+    rc, out = ctx.run_cmd([binp, "-test.run", "^TestVerifE5LifeCorr$", "-test.count=1", "-test.timeout", "%ds" % deadline(ctx)],
+                          timeout=deadline(ctx) + 30, env={"VERIF_SEED": seed, "VERIF_N": n, "VERIF_STEPS": steps,
                                             "VERIF_OUT": ctx.work})
+    if rc != 0 and hung(ctx, rc, out, "TestVerifE5LifeCorr", seed, n, steps):
+        corr_broken.append("life harness hit its deadline")
+        return
     if rc != 0:
         ctx.log("life harness failed:\n" + out[-2500:])
         corr_broken.append("life harness exit %s: %s" % (rc, out[-300:].replace("\n", " | ")))
@@ -135,14 +164,22 @@ def life_corr(ctx, binp, corr_broken, seed, n, steps):
     ops, impl, model = read_streams(ctx, "life")
     last = ""
     ndiff = 0
+    prev_dump = cur_dump = ""
     for i, (o, a) in enumerate(zip(ops, impl)):
         b = model[i] if i < len(model) else "<missing>"
         w = o.split()[0]
         if w not in ("dump", "meta", "files", "settle"):
             last = o
-            ctx.count_case(o, nontrivial=(a == "ok"))
+            prev_dump = cur_dump
+            ctx.count_case(o, nontrivial=a.startswith("ok"))
         else:
             ctx.evaluations += 1
+        if w == "dump":
+            cur_dump = a
+            bad = life_direct_oracle(last, prev_dump, a)
+            if bad:
+                ctx.violation(bad[0], bad[1], json.dumps({"kind": "seed", "test": "TestVerifE5LifeCorr", "seed": seed,
+                                                          "n": n, "steps": steps, "line": i, "after": last}))
         if w == "files":
             # the model's file set is an upper bound (a data file disappears once fully read):
             # every backend that owns a file on disk must be allowed to
@@ -178,6 +215,39 @@ def life_corr(ctx, binp, corr_broken, seed, n, steps):
                 ctx.add_sample({"op": o, "impl": impl[i], "then": impl[i + 2] if i + 2 < len(impl) else ""})
                 break
     ctx.corr.setdefault("streams", []).append({"label": "life", "lines": len(ops), "diffs": ndiff})
+
+
+def topic_chans(dump, t):
+    for part in dump.split(" ; "):
+        if part.startswith("T %s " % t):
+            return part.split(" | ")[1:]
+    return None
+
+
+def life_direct_oracle(last, before, after):
+    """Property clauses that compare the implementation's state before and after one operation
+    (no model involved)."""
+    w = last.split()
+    if not w or not before:
+        return None
+    if w[0] == "etopic":
+        cb, ca = topic_chans(before, w[1]), topic_chans(after, w[1])
+        if cb is not None and ca is not None and cb != ca:
+            return ("topic-empty-touched-channels", "Topic.Empty changed the topic's channels: %s -> %s" % (cb, ca))
+    if w[0] == "echan":
+        for part_b in before.split(" ; "):
+            if not part_b.startswith("T "):
+                continue
+            tname = part_b.split()[1]
+            cb, ca = topic_chans(before, tname), topic_chans(after, tname)
+            if cb is None or ca is None:
+                continue
+            for x, y in zip(cb, ca):
+                same_chan = x.split()[1] == y.split()[1]
+                if same_chan and (tname, x.split()[1]) != (w[1], w[2]) and x != y:
+                    return ("channel-empty-touched-others", "Channel.Empty of %s:%s changed %s:%s: %s -> %s"
+                            % (w[1], w[2], tname, x.split()[1], x, y))
+    return None
 
 
 def chan_fields(dump, t, c):
@@ -230,9 +300,12 @@ def life_property_fails(last, op, impl, model):
 
 
 def micro_corr(ctx, binp, corr_broken, seed, n, steps, fixed):
-    rc, out = ctx.run_cmd([binp, "-test.run", "^TestVerifE5MicroCorr$", "-test.count=1", "-test.timeout", "500s"],
-                          timeout=560, env={"VERIF_SEED": seed, "VERIF_N": n, "VERIF_STEPS": steps,
+    rc, out = ctx.run_cmd([binp, "-test.run", "^TestVerifE5MicroCorr$", "-test.count=1", "-test.timeout", "%ds" % deadline(ctx)],
+                          timeout=deadline(ctx) + 30, env={"VERIF_SEED": seed, "VERIF_N": n, "VERIF_STEPS": steps,
                                             "VERIF_OUT": ctx.work, "VERIF_FIXED": 1 if fixed else 0})
+    if rc != 0 and hung(ctx, rc, out, "TestVerifE5MicroCorr", seed, n, steps):
+        corr_broken.append("micro harness hit its deadline")
+        return
     if rc != 0:
         ctx.log("micro harness failed:\n" + out[-2500:])
         corr_broken.append("micro harness exit %s: %s" % (rc, out[-300:].replace("\n", " | ")))
@@ -266,6 +339,39 @@ def micro_corr(ctx, binp, corr_broken, seed, n, steps, fixed):
         if o.startswith("if emptyInit") and i + 1 < len(impl):
             ctx.add_sample({"op": o, "impl": impl[i], "dump": impl[i + 1][:200]})
             break
+
+
+def concurrent_leg(ctx, binp, rounds, ms, race_bin=None):
+    """Free-running goroutines (no hooks, no serialisation) against one real NSQD: liveness watch.
+    A panic kills the subprocess; an operation that does not return within its deadline is reported."""
+    res = {"ok": 0, "ops": 0}
+    for i in range(rounds):
+        b = race_bin if (race_bin and i % 2 == 1) else binp
+        rc, out = ctx.run_cmd([b, "-test.run", "^TestVerifE5Concurrent$", "-test.count=1", "-test.timeout", "60s"],
+                              timeout=90, env={"VERIF_SEED": ctx.seed * 100 + i, "VERIF_MS": ms})
+        ok = [l for l in out.splitlines() if l.startswith("E5CONC ok")]
+        rp = json.dumps({"kind": "conc", "seed": ctx.seed * 100 + i, "ms": ms})
+        if ok:
+            res["ok"] += 1
+            res["ops"] += int(ok[0].split("ops=")[1].split()[0])
+            res["last"] = ok[0]
+            ctx.evaluations += int(ok[0].split("ops=")[1].split()[0])
+            continue
+        blocked = [l for l in out.splitlines() if l.startswith("E5CONC blocked")]
+        if "WARNING: DATA RACE" in out:
+            where = [l.strip() for l in out.splitlines() if "nsqd.(*" in l][:4]
+            ctx.violation("data-race:" + (where[0].split("(")[0] if where else "?"), "race detector: " + "; ".join(where), rp)
+        elif "panic:" in out and "index out of range" in out and "removeFromInFlightPQ" in out:
+            report(ctx, KEY_PANIC, "free-running goroutines (no hooks): " +
+                   [l for l in out.splitlines() if l.startswith("panic:")][0], rp + "\n" + out[-1500:])
+        elif "panic:" in out:
+            pl = [l for l in out.splitlines() if l.startswith("panic:")][0]
+            ctx.violation("concurrent-panic:" + pl[:60], "free-running goroutines: " + pl, rp + "\n" + out[-2500:])
+        elif blocked or rc == -9 or "test timed out" in out:
+            ctx.violation("daemon-hangs:concurrent", (blocked[0] if blocked else "concurrent leg did not finish"), rp + "\n" + out[-2500:])
+        else:
+            ctx.broken_ties.append("concurrent leg failed to run: " + out[-300:].replace("\n", " | "))
+    ctx.corr["concurrent_leg"] = res
 
 
 def run(ctx):
@@ -319,6 +425,10 @@ def run(ctx):
         replay_known(ctx, binp)
         life_corr(ctx, binp, corr_broken, ctx.seed, ctx.budget(40, 400), ctx.budget(60, 80))
         micro_corr(ctx, binp, corr_broken, ctx.seed, ctx.budget(400, 6000), ctx.budget(40, 60), fixed)
+        race_bin = None
+        if ctx.thorough():
+            race_bin = ctx.go_test_binary("nsqd", HARNESS, "e5c08race", race=True)
+        concurrent_leg(ctx, binp, ctx.budget(4, 24), ctx.budget(1200, 4000), race_bin)
     if (ctx.broken_ties or corr_broken) and not ctx.violations:
         ctx.broken_without_input(ctx.broken_ties + corr_broken,
                                  "search: %d evaluations of the generated histories/schedules found no property failure"
